@@ -574,6 +574,59 @@ def oracle(chk, quick):
             chk.fail("keyword:" + name, "%s called by keyword differs from the positional call (N=%d)" % (name, n), dict(propagator=name, N=n, wvl=wvl, d1=d1, z=z))
 
 
+def thread_schedule(chk, quick):
+    """SCHEDULES (round 6): the four propagators called from several threads at once on grids of one shape (one wavefront per thread, as in a
+    loop over layers handed to a thread pool) give, every time, what they give alone.  NumPy releases the GIL inside the FFT and the large
+    elementwise operations, so a work array kept per shape at module level (seeded change C10-L: `ift2` transforming in place in such an
+    array) is overwritten by the other threads.  A pure function cannot fail this clause; a racy one is caught with high probability, not
+    with certainty (observed: first round, six runs out of six)."""
+    import threading
+    from aotools import opticalpropagation as op
+    nprng = numpy.random.default_rng(chk.rng.getrandbits(32))
+    n = 256
+    wvl, d1, z = 5e-7, 0.01, 1000.0
+    nthreads, rounds = 4, (3 if quick else 12)
+    fields = [rand_field(nprng, n, "gauss") * (k + 1) for k in range(nthreads)]
+    props = propagators(op)
+    for name, (fn, _) in sorted(props.items()):
+        d2 = d1 * (1.0 if name != "twoStepFresnel" else 1.5)
+        want = [numpy.array(fn(U, wvl, d1, d2, z), copy=True) for U in fields]
+        got = [[None] * rounds for _ in range(nthreads)]
+        errs = []
+        gate = threading.Barrier(nthreads)
+
+        def work(k):
+            try:
+                gate.wait(timeout=60)
+                for r in range(rounds):
+                    got[k][r] = numpy.array(fn(fields[k], wvl, d1, d2, z), copy=True)
+            except Exception as ex:          # noqa: BLE001
+                errs.append("%s: %s" % (type(ex).__name__, ex))
+        ths = [threading.Thread(target=work, args=(k,)) for k in range(nthreads)]
+        for th in ths:
+            th.start()
+        for th in ths:
+            th.join(600)
+        chk.oracle_cases += 1
+        chk.count("oracle:threads:" + name)
+        chk.case(("threads", name, n, nthreads, rounds))
+        rep = dict(propagator=name, N=n, wvl=wvl, d1=d1, d2=d2, z=z, threads=nthreads, rounds=rounds)
+        if errs:
+            chk.fail("threads:raises:" + name, "%s raised in a thread: %s" % (name, errs[0]), rep)
+            continue
+        worst = 0.0
+        for k in range(nthreads):
+            for r in range(rounds):
+                g = got[k][r]
+                if g is None or g.shape != want[k].shape:
+                    worst = float("inf")
+                else:
+                    worst = max(worst, float(numpy.max(numpy.abs(g - want[k])) / max(float(numpy.max(numpy.abs(want[k]))), 1e-300)))
+        if not worst <= 1e-12:
+            chk.fail("threads:" + name, "%s on a %dx%d grid called from %d threads at once (each on its own field, %d calls each) returns "
+                     "fields that differ from the same calls made alone by up to %.3g of the largest sample" % (name, n, n, nthreads, rounds, worst), rep)
+
+
 def _small(U):
     return [[[float(v.real), float(v.imag)] for v in row] for row in U] if U.shape[0] <= 8 else "N>8: regenerate from seed"
 
@@ -606,4 +659,5 @@ def run(chk):
     except common.LeanError as ex:
         chk.broke("correspondence", "driver failed", str(ex))
     oracle(chk, quick)
+    thread_schedule(chk, quick)
     obs_note(chk)
